@@ -139,9 +139,10 @@ static VtkFile parse_vtk(const std::string& content) {
 // What the monitor records
 struct CellSnap { unsigned id = 0; int type = 0; size_t nfaces = 0, nnodes = 0; double area = 0, vol = 0, tvol = 0, pres = 0; std::vector<double> pos; };
 static CellSnap snap(const cell_ptr& c, bool with_pos) {
-    CellSnap s; s.id = c->get_id(); s.type = c->get_cell_type() ? c->get_cell_type()->global_type_id_ : -1; s.nfaces = c->get_face_lst().size(); s.nnodes = c->get_node_lst().size();
+    // live nodes and faces (the writer compacts every cell before it writes: unused slots are no points of the tissue)
+    CellSnap s; s.id = c->get_id(); s.type = c->get_cell_type() ? c->get_cell_type()->global_type_id_ : -1; s.nfaces = 0; for (const face& f : c->get_face_lst()) if (f.is_used()) s.nfaces++; s.nnodes = 0; for (const node& n : c->get_node_lst()) if (n.is_used()) s.nnodes++;
     s.area = c->get_area(); s.vol = c->get_volume(); s.tvol = c->get_target_volume(); s.pres = c->get_pressure();
-    if (with_pos) { s.pos.reserve(s.nnodes * 3); for (const node& n : c->get_node_lst()) { s.pos.push_back(n.pos().dx()); s.pos.push_back(n.pos().dy()); s.pos.push_back(n.pos().dz()); } }
+    if (with_pos) { s.pos.reserve(s.nnodes * 3); for (const node& n : c->get_node_lst()) if (n.is_used()) { s.pos.push_back(n.pos().dx()); s.pos.push_back(n.pos().dy()); s.pos.push_back(n.pos().dz()); } }
     return s;
 }
 struct FileRec { unsigned number = 0, iteration = 0; double t = 0; std::vector<CellSnap> cells; };
